@@ -119,6 +119,238 @@ fn g_params(ps: &[(u32, Val)]) -> String {
     g_list(ps.iter().map(|(k, v)| format!("({}, {})", k, g_val(v))))
 }
 
+// ---------------------------------------------------------------- write statements
+fn dump(store: &samyama::graph::GraphStore) -> Vec<String> {
+    let mut out = Vec::new();
+    let mut seen = std::collections::BTreeSet::new();
+    for n in store.all_nodes() {
+        if !seen.insert(n.id.as_u64()) {
+            continue;
+        }
+        let mut labels: Vec<String> = n.labels.iter().map(|l| l.as_str().to_string()).collect();
+        labels.sort();
+        let mut props: Vec<String> =
+            store.node_properties_full(n.id).iter().map(|(k, v)| format!("{}={:?}", k, from_pv(v))).collect();
+        props.sort();
+        out.push(format!("N{} {:?} {:?}", n.id.as_u64(), labels, props));
+        for e in store.get_outgoing_edges(n.id) {
+            let mut props: Vec<String> = e.properties.iter().map(|(k, v)| format!("{}={:?}", k, from_pv(v))).collect();
+            props.sort();
+            out.push(format!(
+                "R{} {}->{} {} {:?}",
+                e.id.as_u64(),
+                e.source.as_u64(),
+                e.target.as_u64(),
+                e.edge_type.as_str(),
+                props
+            ));
+        }
+    }
+    out.sort();
+    out
+}
+
+/// Run a statement on `store` (with parameters through `MutQueryExecutor::with_params`, without
+/// through `QueryEngine::execute_mut`).
+fn run_write(store: &mut samyama::graph::GraphStore, text: &str, params: &[(u32, Val)]) -> Obs {
+    use samyama::query::{parse_query, MutQueryExecutor, QueryEngine};
+    let r = catch(std::panic::AssertUnwindSafe(|| {
+        let b = if params.is_empty() {
+            QueryEngine::new().execute_mut(text, store, "default").map_err(|e| e.to_string())?
+        } else {
+            let q = parse_query(text).map_err(|e| e.to_string())?;
+            let mut m = std::collections::HashMap::new();
+            for (k, v) in params {
+                m.insert(format!("q{}", k), to_pv(v));
+            }
+            MutQueryExecutor::new(store, "default".to_string()).with_params(m).execute(&q).map_err(|e| e.to_string())?
+        };
+        Ok::<_, String>(
+            b.records
+                .iter()
+                .map(|rec| {
+                    b.columns
+                        .iter()
+                        .map(|c| rec.get(c).map(from_value).unwrap_or(Val::Other("missing column".into())))
+                        .collect::<Vec<Val>>()
+                })
+                .collect::<Vec<_>>(),
+        )
+    }));
+    match r {
+        Err(p) => Obs::Panic(p),
+        Ok(Err(e)) => Obs::Err(e),
+        Ok(Ok(rows)) => Obs::Ok(rows),
+    }
+}
+
+fn gen_param_val(r: &mut Rng, kind: u32) -> Val {
+    match kind {
+        0 => Val::Int(gen_int(r)),
+        1 => Val::Str(r.pick(&STR_POOL).to_string()),
+        2 => Val::Bool(r.chance(1, 2)),
+        3 => Val::List((0..r.below(4)).map(|_| Val::Int(r.range(0, 4) as i64)).collect()),
+        _ => Val::Null,
+    }
+}
+
+/// A write statement with `$q<i>` parameters as property values (CREATE / MERGE maps, SET right-hand
+/// sides, SET +=, UNWIND source, WHERE of the reading part) and as SKIP / LIMIT counts.
+fn gen_write(r: &mut Rng) -> (String, Vec<(u32, Val)>, &'static str) {
+    let l = label_name(r.below(4) as u32);
+    let l2 = label_name(r.below(4) as u32);
+    let t = type_name(r.below(3) as u32);
+    let mut ps: Vec<(u32, Val)> = Vec::new();
+    let mut p = |r: &mut Rng, kind: u32| -> String {
+        let k = if r.chance(1, 10) { 4 } else if r.chance(1, 8) { r.below(4) as u32 } else { kind };
+        let i = ps.len() as u32;
+        ps.push((i, gen_param_val(r, k)));
+        format!("$q{}", i)
+    };
+    let (text, tag): (String, &'static str) = match r.below(17) {
+        14 => (format!("MATCH (n:{}) CREATE (m:{}) SET m.p0 = {} RETURN m.p0 AS x", l, l2, p(r, 0)), "pipeline_set"),
+        15 => (format!("MERGE (n:{} {{p0: 1}}) SET n.p1 = {} RETURN n.p1 AS x", l, p(r, 1)), "pipeline_set"),
+        16 => (format!("CREATE (n:{} {{p0: {}}}) WITH n SET n.p1 = {} RETURN n.p0 AS x, n.p1 AS y", l, p(r, 0), p(r, 1)), "pipeline_set"),
+        0 => (format!("CREATE (a:{} {{p0: {}, p1: {}}}) RETURN a.p0 AS x, a.p1 AS y", l, p(r, 0), p(r, 1)), "create_node"),
+        1 => (
+            format!("CREATE (a:{} {{p0: {}}})-[r:{} {{p0: {}}}]->(b {{p1: {}}}) RETURN r.p0 AS x", l, p(r, 0), t, p(r, 0), p(r, 1)),
+            "create_path",
+        ),
+        2 => (format!("MATCH (n:{}) SET n.p0 = {} RETURN n.p0 AS x", l, p(r, 0)), "set_prop"),
+        3 => (
+            format!("MATCH (n) WHERE n.p0 = {} SET n.p1 = {}, n.p2 = ({} + 1)", p(r, 0), p(r, 1), p(r, 0)),
+            "set_prop",
+        ),
+        4 => (format!("MATCH (n:{}) SET n += {{p0: {}, p2: {}}}", l, p(r, 0), p(r, 2)), "set_map"),
+        5 => (
+            format!(
+                "MERGE (n:{} {{p0: {}}}) ON CREATE SET n.p1 = {} ON MATCH SET n.p2 = {} RETURN n.p0 AS x",
+                l,
+                p(r, 0),
+                p(r, 1),
+                p(r, 2)
+            ),
+            "merge",
+        ),
+        6 => {
+            let i = ps.len() as u32;
+            ps.push((i, gen_param_val(r, 3)));
+            let mut p2 = |r: &mut Rng, kind: u32| -> String {
+                let i = ps.len() as u32;
+                ps.push((i, gen_param_val(r, kind)));
+                format!("$q{}", i)
+            };
+            (format!("UNWIND $q{} AS x CREATE (:{} {{p0: x, p1: {}}})", i, l, p2(r, 1)), "unwind_create")
+        }
+        7 => (
+            format!("MATCH (a:{}), (b:{}) WHERE a.p0 = {} CREATE (a)-[:{} {{p0: {}}}]->(b)", l, l2, p(r, 0), t, p(r, 0)),
+            "match_create_rel",
+        ),
+        8 => {
+            let i = ps.len() as u32;
+            ps.push((i, gen_param_val(r, 3)));
+            (format!("MATCH (n) WHERE n.p0 IN $q{} DETACH DELETE n", i), "where_delete")
+        }
+        9 => (format!("MATCH ()-[r:{}]->() SET r.p0 = {}", t, p(r, 0)), "set_rel_prop"),
+        10 => (format!("MERGE (a:{} {{p0: {}}})-[:{}]->(b:{} {{p0: {}}})", l, p(r, 0), t, l2, p(r, 0)), "merge_path"),
+        11 => (format!("CREATE (n:{}) SET n.p0 = {} RETURN n.p0 AS x", l, p(r, 0)), "create_set"),
+        12 => {
+            let i = ps.len() as u32;
+            ps.push((i, Val::Int(r.range(0, 3) as i64)));
+            (format!("MATCH (n) RETURN id(n) AS x ORDER BY x SKIP $q{}", i), "skip_param")
+        }
+        _ => {
+            let i = ps.len() as u32;
+            ps.push((i, Val::Int(r.range(0, 3) as i64)));
+            (format!("MATCH (n:{}) SET n.p2 = true RETURN id(n) AS x ORDER BY x LIMIT $q{}", l, i), "limit_param")
+        }
+    };
+    (text, ps, tag)
+}
+
+fn inline_text(text: &str, ps: &[(u32, Val)]) -> String {
+    let mut s = text.to_string();
+    for (k, v) in ps.iter().rev() {
+        s = s.replace(&format!("$q{}", k), &lit_text(v));
+    }
+    s
+}
+
+/// The write stream: each statement is run with parameters and with the values inlined, each on
+/// its own copy of the graph; rows and the resulting graphs must agree, or the parameterised run
+/// must fail.
+fn write_case(out: &mut Out, r: &mut Rng, g: &Graph) {
+    let (text, ps, tag) = gen_write(r);
+    let (mut s1, _) = build_store(g);
+    if ps.iter().any(|(_, v)| !literal_round_trips(&s1, v)) {
+        out.count("excluded_no_literal_spelling");
+        return;
+    }
+    let idx = out.next_index();
+    if !out.wants(idx) {
+        out.skip();
+        return;
+    }
+    let (mut s2, _) = build_store(g);
+    let text_i = inline_text(&text, &ps);
+    let obs_p = run_write(&mut s1, &text, &ps);
+    let obs_i = run_write(&mut s2, &text_i, &[]);
+    let (d1, d2) = (dump(&s1), dump(&s2));
+    out.count("write_stmt");
+    out.count(&format!("write_{}", tag));
+    let verdict: Option<String> = match (&obs_p, &obs_i) {
+        (Obs::Panic(p), _) => Some(format!("the parameterised statement panicked: {}", p)),
+        (_, Obs::Panic(p)) => Some(format!("the inlined statement panicked: {}", p)),
+        (Obs::Err(_), _) => {
+            out.count("write_param_err");
+            None
+        }
+        (Obs::Ok(a), Obs::Ok(b)) => {
+            out.count("write_both_ok");
+            if d1 != dump(&build_store(g).0) {
+                out.count("write_both_ok_changed_graph");
+            }
+            let mut x: Vec<String> = a.iter().map(|r| format!("{:?}", r)).collect();
+            let mut y: Vec<String> = b.iter().map(|r| format!("{:?}", r)).collect();
+            x.sort();
+            y.sort();
+            if x != y {
+                Some(format!("different rows: with parameters {} / inlined {}", human_obs(&obs_p), human_obs(&obs_i)))
+            } else if d1 != d2 {
+                let only1: Vec<&String> = d1.iter().filter(|l| !d2.contains(l)).collect();
+                let only2: Vec<&String> = d2.iter().filter(|l| !d1.contains(l)).collect();
+                Some(format!("different effect on the graph: only with parameters {:?} / only inlined {:?}", only1, only2))
+            } else {
+                None
+            }
+        }
+        (Obs::Ok(_), Obs::Err(e)) => Some(format!(
+            "the parameterised statement answered {} but the inlined statement failed: {}",
+            human_obs(&obs_p),
+            e
+        )),
+    };
+    let human = format!(
+        "[write] graph={} statement={} params={} inlined={} obs={}",
+        human_graph(g),
+        text,
+        ps.iter().map(|(k, v)| format!("$q{}={}", k, lit_text(v))).collect::<Vec<_>>().join(","),
+        text_i,
+        human_obs(&obs_p)
+    )
+    .replace('\n', " ");
+    // the write side is judged on the implementation only (the model case is a placeholder that
+    // keeps case indices and replay working)
+    let gal = format!("(Case {} [] (Q [] true) false ObsErr)", g_graph(g));
+    let i = out.case(gal, human.clone(), !matches!(obs_p, Obs::Err(_)));
+    if let Some(d) = verdict {
+        // known finding: in a statement run by the clause pipeline (a CREATE / MERGE before the
+        // SET) parameters in SET right-hand sides are not substituted; the SET then stores null
+        let known = if tag == "create_set" { Some("set_param_in_clause_pipeline") } else { None };
+        out.fail(i, &human, &d, known);
+    }
+}
+
 fn main() {
     quiet_panics();
     let args = parse_args();
@@ -141,6 +373,11 @@ fn main() {
             graph_cache = Some((gi, store, g));
         }
         let (_, store, g) = graph_cache.as_ref().unwrap();
+        if c % 3 == 2 {
+            let mut wr = Rng::for_case(args.seed.wrapping_add(0xC350), c);
+            let gclone = g.clone();
+            write_case(&mut out, &mut wr, &gclone);
+        }
         let mut r = Rng::for_case(args.seed.wrapping_add(0xC35), c);
         let mut cx = Gen::new(&mut r, g, true);
         let q = cx.gen_query();
@@ -241,6 +478,20 @@ fn main() {
             let gal_i = format!("(Case {} [] {} false {})", g_graph(g), g_query(&qi), g_obs(&obs_i));
             out.case(gal_i, format!("[inlined twin of {}] {}", i, human).replace('\n', " "), false);
         }
+    }
+    // replay of the stored witness of the known finding
+    {
+        let (mut st, _) = build_store(&fixed_graph());
+        let obs = run_write(&mut st, "CREATE (n:A) SET n.p0 = $q0 RETURN n.p0 AS x", &[(0, Val::Int(2))]);
+        let same = matches!(&obs, Obs::Ok(rows) if rows.len() == 1 && rows[0] == vec![Val::Int(2)]);
+        out.known.push(KnownReplay {
+            class: "set_param_in_clause_pipeline".to_string(),
+            still_fails: !same && !matches!(obs, Obs::Err(_)),
+            detail: format!(
+                "CREATE (n:A) SET n.p0 = $q0 RETURN n.p0 AS x with $q0 = 2: engine {}, inlined Ok[(2)]",
+                human_obs(&obs)
+            ),
+        });
     }
     out.finish();
 }
